@@ -2248,53 +2248,66 @@ Proof.
   match goal with |- torn (if ?c then _ else _) = true => destruct c end; reflexivity.
 Qed.
 
-(* with the wrapper that registers Cello_Exit with atexit (and does not call it a second time),
-   EVERY termination route runs the teardown, once: every managed object allocated before has been
-   finalised exactly once when the process is gone *)
+(* with the wrapper that registers Cello_Exit with atexit (and does not call it a second time), and
+   Exception_Error leaving only through exit(): EVERY termination route runs the teardown, once —
+   every managed object allocated before has been finalised exactly once when the process is gone *)
 Theorem terminate_complete r h order x b :
   no_alloc_in_stop_window true true true h = true ->
   torn (runF h) = false -> info (runF h) x = Some (KManaged, b) ->
-  done (terminate true true true true false r order (runF h)) x /\
-  torn (terminate true true true true false r order (runF h)) = true.
+  done (terminate true true true true false true r order (runF h)) x /\
+  torn (terminate true true true true false true r order (runF h)) = true.
 Proof.
-  intros Hc Ht Hi. unfold terminate. simpl andb. cbv iota.
+  intros Hc Ht Hi. unfold terminate. rewrite andb_false_r. simpl andb. cbv iota.
   split; [|apply torn_after_teardown; exact Ht].
   rewrite <- run_snoc. exact (teardown_complete h order x b Hc Ht Hi).
 Qed.
 
-Theorem terminate_at_most_once ra ca r h order x :
-  fin_count (terminate true true true ra ca r order (runF h)) x <= 1 /\
-  free_count (terminate true true true ra ca r order (runF h)) x = fin_count (terminate true true true ra ca r order (runF h)) x.
+Theorem terminate_at_most_once ra ca ee r h order x :
+  fin_count (terminate true true true ra ca ee r order (runF h)) x <= 1 /\
+  free_count (terminate true true true ra ca ee r order (runF h)) x = fin_count (terminate true true true ra ca ee r order (runF h)) x.
 Proof.
   unfold terminate.
   assert (H1 : forall h', fin_count (runF h') x <= 1 /\ free_count (runF h') x = fin_count (runF h') x)
     by (intros; apply finalised_at_most_once).
+  destruct (via_error r && negb ee); [apply H1|].
   destruct (ca && returns r); destruct ra; rewrite <- ?run_snoc; apply H1.
 Qed.
 
-Lemma terminate_complete_sw r1 w d ra ca : r1 = true -> w = true -> d = true -> ra = true -> ca = false ->
+Lemma terminate_complete_sw r1 w d ra ca ee : r1 = true -> w = true -> d = true -> ra = true -> ca = false -> ee = true ->
   forall r h order x b,
   no_alloc_in_stop_window r1 w d h = true ->
   torn (run r1 w d h) = false -> info (run r1 w d h) x = Some (KManaged, b) ->
-  (fin_count (terminate r1 w d ra ca r order (run r1 w d h)) x = 1 /\
-   free_count (terminate r1 w d ra ca r order (run r1 w d h)) x = 1) /\
-  torn (terminate r1 w d ra ca r order (run r1 w d h)) = true.
-Proof. intros -> -> -> -> ->. exact terminate_complete. Qed.
+  (fin_count (terminate r1 w d ra ca ee r order (run r1 w d h)) x = 1 /\
+   free_count (terminate r1 w d ra ca ee r order (run r1 w d h)) x = 1) /\
+  torn (terminate r1 w d ra ca ee r order (run r1 w d h)) = true.
+Proof. intros -> -> -> -> -> ->. exact terminate_complete. Qed.
 
 (* a wrapper that only tears down after Cello_Main has returned: a program that ends through exit()
    below main (or an uncaught throw) leaves its managed objects behind *)
 Definition exit_history : list ev := [ENew KManaged false 1 [] []; ENew KManaged true 2 [] [1]; ELink 2 (Some 1)].
 
 Theorem terminate_refuted_without_atexit :
-  let s := terminate true true true false true RExit [] (runF exit_history) in
+  let s := terminate true true true false true true RExit [] (runF exit_history) in
   no_alloc_in_stop_window true true true exit_history = true /\ bad s = false /\ torn s = false /\
   info s 1 = Some (KManaged, false) /\ fin_count s 1 = 0 /\ fin_count s 2 = 0 /\
-  fin_count (terminate true true true false true RThrow [] (runF exit_history)) 1 = 0 /\
-  fin_count (terminate true true true false true RReturn [] (runF exit_history)) 1 = 1.
+  fin_count (terminate true true true false true true RThrow [] (runF exit_history)) 1 = 0 /\
+  fin_count (terminate true true true false true true RReturn [] (runF exit_history)) 1 = 1.
+Proof. vm_compute. repeat split; reflexivity. Qed.
+
+(* an Exception_Error with a path that avoids exit() (_Exit, abort, ...): an uncaught exception —
+   e.g. a signal turned into an exception, or any throw after one — leaves the objects behind;
+   the routes that do not go through Exception_Error are fine *)
+Theorem terminate_refuted_error_without_exit :
+  let s := terminate true true true true false false RSigUncaught [] (runF exit_history) in
+  bad s = false /\ torn s = false /\ info s 1 = Some (KManaged, false) /\ fin_count s 1 = 0 /\ fin_count s 2 = 0 /\
+  fin_count (terminate true true true true false false RSigCaughtThrow [] (runF exit_history)) 1 = 0 /\
+  fin_count (terminate true true true true false false RSigCaughtReturn [] (runF exit_history)) 1 = 1 /\
+  fin_count (terminate true true true true false false RSigCaughtExit [] (runF exit_history)) 1 = 1.
 Proof. vm_compute. repeat split; reflexivity. Qed.
 
 Example exit_history_ok :
   no_alloc_in_stop_window true true true exit_history = true /\ torn (runF exit_history) = false /\
   info (runF exit_history) 1 = Some (KManaged, false) /\
-  fin_count (terminate true true true true false RExit [] (runF exit_history)) 2 = 1.
+  fin_count (terminate true true true true false true RExit [] (runF exit_history)) 2 = 1 /\
+  fin_count (terminate true true true true false true RSigUncaught [] (runF exit_history)) 2 = 1.
 Proof. vm_compute. repeat split; reflexivity. Qed.
